@@ -415,6 +415,14 @@ fn ingest_from_pubsub(map: Arc<RwLock<HashMap<String, u128>>>) {
 }
 
 fn pubsub_handle_s2d(map: &Arc<RwLock<HashMap<String, u128>>>, s2d: &StationToDetector) {
+    // A clear request carries no session details (the station sends the operation only), so it
+    // must be dispatched before the details are parsed - otherwise it is rejected as a malformed
+    // session and the sessions of a previous station launch are never dropped.
+    if s2d.operation() == StationOperations::Clear {
+        pubsub_clear(map);
+        return;
+    }
+
     let sd = match SessionResult::from(s2d) {
         Ok(m) => m,
         Err(e) => {
